@@ -888,6 +888,29 @@ struct Case {
 			opQuery(sn);
 			opUpdate(sn);
 			w.stats.add("snapshot_copies_cycled");
+			// its guards let everything pass, so an immediate change has exactly one possible outcome - whatever the copy
+			// was in the middle of when it was taken (C02: the request is applied; C11: the history describes that step)
+			const unsigned tries = N <= 8 ? N : 8;
+			for (unsigned t = 0; t < tries && !w.stopCase; ++t) {
+				const uint8_t d = static_cast<uint8_t>(N <= 8 ? t : w.ch.draw(N));
+				opChange(sn, d, false, true);
+				const ffsm2::StateID now = sn.obj->activeStateId();
+				const char* const* saved = w.muteAllow;
+				w.muteAllow = nullptr;
+				if (now != d)
+					w.V("C02", "applied-destination!=last-survivor|copy-taken-inside-callback", fmt("a copy taken inside a callback, guards passing everything: immediateChangeTo(%u) left it in state %u; %s", d, now, w.tail().c_str()));
+#if HAS_HISTORY
+				{
+					const Req pt = toReq(sn.obj->previousTransition());
+					if (now == d && !(pt.valid && pt.dest == d && pt.origin == 255 && !pt.hasPay))
+						w.V("C11", "previousTransition!=applied|copy-taken-inside-callback", fmt("a copy taken inside a callback: after immediateChangeTo(%u) previousTransition() is %s; %s", d, pt.str().c_str(), w.tail().c_str()));
+					else if (now != d && pt.valid && pt.dest != now)
+						w.V("C11", "previousTransition-destination-not-active|copy-taken-inside-callback", fmt("a copy taken inside a callback: immediateChangeTo(%u) applied nothing (state %u) yet previousTransition() is %s", d, now, pt.str().c_str()));
+				}
+#endif
+				w.muteAllow = saved;
+				w.stats.add("snapshot_immediate_changes");
+			}
 			opDestroy(4);
 			w.muteAllow = nullptr;
 			return;
